@@ -543,6 +543,21 @@ impl Ctx {
                 self.id, sig, n, what
             );
         }
+        // cases that ended in an `inconclusive-*` class (a wall-clock wait ran out) decide nothing:
+        // a handful is tolerated (scheduling noise), more than that makes the run inconclusive -
+        // a hang must never read as "held"
+        let inconcl: u64 = a.classes.iter().filter(|(k, _)| k.starts_with("inconclusive")).map(|(_, v)| *v).sum();
+        if inconcl > 5 && inconcl * 200 > a.evaluations {
+            let m = format!(
+                "{}: {} of {} cases ended in an inconclusive class (a wait timed out) - the sub-check decided nothing for them: {:?}",
+                cfg.name,
+                inconcl,
+                a.evaluations,
+                a.classes.iter().filter(|(k, _)| k.starts_with("inconclusive")).collect::<Vec<_>>()
+            );
+            eprintln!("{m}");
+            self.inconclusive.push(m);
+        }
         let first_fail = failures.into_iter().flatten().next();
         let report = SubReport {
             name: cfg.name.to_string(),
